@@ -409,11 +409,22 @@ func (u *Unmarshaler) generateMap(keyType, elemType reflect.Type, mapValue any,
 
 				targetValue.SetMapIndex(key, target.Elem())
 			default:
-				if dereffedElemKind != keythValue.Kind() {
+				if dereffedElemKind == keythValue.Kind() {
+					targetValue.SetMapIndex(key, keythValue)
+					break
+				}
+
+				// keythValue is of the source map's element type (an interface),
+				// the kind that matters is the kind of the value it holds.
+				elemValue := reflect.ValueOf(keythData)
+				if !elemValue.IsValid() || dereffedElemKind != elemValue.Kind() {
 					return emptyValue, errTypeMismatch
 				}
 
-				targetValue.SetMapIndex(key, keythValue)
+				if !elemValue.Type().AssignableTo(dereffedElemType) {
+					elemValue = elemValue.Convert(dereffedElemType)
+				}
+				SetMapIndexValue(elemType, targetValue, key, elemValue)
 			}
 		}
 	}
